@@ -1595,7 +1595,7 @@ theorem checkChannelsMatch_ok_iff (old new : ChanCfg) (eom : Bool) :
     checkChannelsMatch old new eom true = .ok ↔ strictMatch modelStrictParams eom old new = true := by
   unfold checkChannelsMatch strictMatch modelStrictParams paramsToCheck
   simp only [List.all_cons, List.all_nil, Bool.and_true, guardHolds, paramEq, String.reduceEq, if_false,
-    if_true, or_false, or_true, false_or, true_or, or_self, List.all_append, Bool.not_true, Bool.false_eq_true,
+    if_true, or_false, or_true, or_self, List.all_append, Bool.not_true, Bool.false_eq_true,
     all_ite_singleton]
   generalize (get old "type" == get new "type") = a1
   generalize (get old "basis" == get new "basis") = a2
